@@ -791,6 +791,40 @@ fn boundary_workload() -> Vec<Op> {
         Op::Msg { t: 0, len: 0 },
     ]
 }
+/// corpus/C05/*.json: {"ops": [{"op": "Msg", "t": 0, "len": 8192}, ..]} — regression workloads (fixed findings)
+fn corpus_workloads() -> Vec<Vec<Op>> {
+    let dir = Path::new(env!("CARGO_MANIFEST_DIR")).join("../corpus/C05");
+    let mut files: Vec<PathBuf> = std::fs::read_dir(&dir).map(|d| d.flatten().map(|e| e.path()).filter(|p| p.extension().map(|x| x == "json").unwrap_or(false)).collect()).unwrap_or_default();
+    files.sort();
+    let mut out = vec![];
+    for f in files {
+        let Ok(v) = serde_json::from_slice::<serde_json::Value>(&std::fs::read(&f).unwrap_or_default()) else { continue };
+        let mut ops = vec![];
+        for o in v["ops"].as_array().cloned().unwrap_or_default() {
+            let t = o["t"].as_u64().unwrap_or(0) as usize;
+            let s = o["s"].as_u64().unwrap_or(0) as usize;
+            let len = o["len"].as_u64().unwrap_or(0);
+            ops.push(match o["op"].as_str().unwrap_or("") {
+                "Ensure" => Op::Ensure,
+                "Msg" => Op::Msg { t, len },
+                "RunSpawned" => Op::RunSpawned { t },
+                "RunEnded" => Op::RunEnded { t },
+                "Cursor" => Op::Cursor { t },
+                "SideFx" => Op::SideFx { t },
+                "Checkpoint" => Op::Checkpoint { t },
+                "Branch" => Op::Branch { t },
+                "Handoff" => Op::Handoff { t },
+                "Sess" => Op::Sess { s, len },
+                "DropSideRead" => Op::DropSideRead { t },
+                _ => continue,
+            });
+        }
+        if !ops.is_empty() {
+            out.push(ops);
+        }
+    }
+    out
+}
 fn gen_workload(r: &mut Rng, n: usize, rich: bool) -> Vec<Op> {
     let mut ops = vec![Op::Ensure];
     let mut nthreads = 1usize;
@@ -835,7 +869,9 @@ fn main() {
     let scratch = Scratch::new("c05");
     let mut w = CaseWriter::new(&a.out, "Model.Crash", "check_case", "model_obs", 60);
     let mut distinct = Distinct::default();
-    let mut workloads: Vec<(Vec<Op>, bool)> = vec![(thin_workload(), true), (boundary_workload(), true)];
+    let mut workloads: Vec<(Vec<Op>, bool)> = corpus_workloads().into_iter().map(|w| (w, true)).collect();
+    workloads.push((thin_workload(), true));
+    workloads.push((boundary_workload(), true));
     let mut r = Rng::new(a.seed);
     let (n_model, n_rich) = if a.thorough() { (24, 16) } else { (3, 2) };
     for _ in 0..n_model {
